@@ -52,10 +52,14 @@ FnV(L) ==
   LET f   == L.obs.str
       b   == F!BaseOf(f)
       sp  == F!Special(b)
-      cls == F!Cls(f)                         \* the class of the file name, whatever the constructor was given
+      cls == IF L.a = "FnPlus" THEN F!PlusCls(f, L.arg.o)
+             ELSE IF L.a = "FnRecompose" THEN F!RecomposeCls(f)
+             ELSE F!Cls(f)                    \* the class of the file name, whatever the constructor was given
       bad ==
         IF ~Eq(f, L.arg.s) THEN "str"          \* the file name is the argument up to trailing separators
-        ELSE IF L.a = "FnSplit" THEN FirstBad(<<"base", "path">>, [path |-> F!PathOf(f), base |-> b], L.obs)
+        ELSE IF L.a = "FnSplit" THEN           \* both constructors, both conversions, the decomposition
+             FirstBad(<<"base", "conv", "cstr", "path", "str_c">>,
+                      [path |-> F!PathOf(f), base |-> b, str_c |-> f, conv |-> f, cstr |-> f], L.obs)
         ELSE IF L.a = "FnNameExt" THEN
              IF sp /\ L.obs.name = b /\ L.obs.ext = <<>> THEN ""
              ELSE FirstBad(<<"ext", "name">>, [name |-> F!NameOf(f), ext |-> F!ExtOf(f)], L.obs)
@@ -63,15 +67,29 @@ FnV(L) ==
              IF sp /\ L.obs.res = f THEN ""
              ELSE IF (IF sp THEN Eq(L.obs.res, F!DropExt(f)) ELSE L.obs.res = F!DropExt(f)) THEN "" ELSE "res"
         ELSE IF L.a = "FnSetExt" THEN
-             IF sp /\ L.obs.res = f \o L.arg.x THEN ""
+             IF L.arg.x = <<>> /\ L.obs.res_default # L.obs.res THEN "res_default"        \* setExt() = setExt("")
+             ELSE IF sp /\ L.obs.res = f \o L.arg.x THEN ""
              ELSE IF (IF sp THEN Eq(L.obs.res, F!SetExt(f, L.arg.x)) ELSE L.obs.res = F!SetExt(f, L.arg.x)) THEN "" ELSE "res"
-        ELSE IF L.a = "FnAddExt" THEN (IF L.obs.res = F!AddExt(f, L.arg.x) THEN "" ELSE "res")
-        ELSE \* FnPlus: obs.ostr is str() of the right operand
+        ELSE IF L.a = "FnAddExt" THEN
+             IF L.arg.x = <<>> /\ L.obs.res_default # L.obs.res THEN "res_default"        \* addExt() = addExt("")
+             ELSE IF L.obs.res = F!AddExt(f, L.arg.x) THEN "" ELSE "res"
+        ELSE IF L.a = "FnPlus" THEN
+             \* both overloads name JoinNames(left name, right operand); obs.ostr is str() of the right operand
+             LET j == F!JoinNames(f, L.arg.o) IN
              IF ~Eq(L.obs.ostr, L.arg.o) THEN "ostr"
-             ELSE IF f = <<>> THEN ""                                   \* empty left operand: not stated
-             ELSE IF ~Eq(L.obs.res, F!Plus(f, L.obs.ostr)) THEN "res"
-             ELSE FirstBad(<<"base", "path">>, [path |-> F!PathOf(L.obs.res), base |-> F!BaseOf(L.obs.res)], L.obs)
-  IN V(bad, cls, [str |-> f, path |-> F!PathOf(f), base |-> b, name |-> F!NameOf(f), ext |-> F!ExtOf(f), dropExt |-> F!DropExt(f)])
+             ELSE IF ~F!SameName(L.obs.res_fn, j) THEN "res_fn"
+             ELSE IF ~F!SameName(L.obs.res_str, j) THEN "res_str"
+             ELSE IF L.obs.res_fn # L.obs.res_str THEN "overloads-agree"
+             ELSE FirstBad(<<"base", "path">>, [path |-> F!PathOf(L.obs.res_fn), base |-> F!BaseOf(L.obs.res_fn)], L.obs)
+        ELSE \* FnRecompose: FileName(path()) + base() names the file again, with either overload
+             IF ~F!SameName(L.obs.res_fn, f) THEN "res_fn"
+             ELSE IF ~F!SameName(L.obs.res_str, f) THEN "res_str"
+             ELSE IF L.obs.res_fn # L.obs.res_str THEN "overloads-agree"
+             ELSE ""
+  IN V(bad, cls,
+       IF L.a = "FnPlus" THEN [left |-> f, right |-> L.arg.o, both_overloads_name |-> F!JoinNames(f, L.arg.o)]
+       ELSE IF L.a = "FnRecompose" THEN [str |-> f, path |-> F!PathOf(f), base |-> b, both_overloads_name |-> f]
+       ELSE [str |-> f, path |-> F!PathOf(f), base |-> b, name |-> F!NameOf(f), ext |-> F!ExtOf(f), dropExt |-> F!DropExt(f)])
 
 \* ---- SI printing ----------------------------------------------------------
 SiV(L) ==
@@ -87,7 +105,7 @@ Verdict(L) ==
            ELSE IF L.a = "Lcp" THEN LcpV(L)
            ELSE IF L.a = "BeginsWith" THEN BeginsV(L)
            ELSE IF L.a = "UrlParse" THEN UrlV(L)
-           ELSE IF L.a \in {"FnSplit", "FnNameExt", "FnDropExt", "FnSetExt", "FnAddExt", "FnPlus"} THEN FnV(L)
+           ELSE IF L.a \in {"FnSplit", "FnNameExt", "FnDropExt", "FnSetExt", "FnAddExt", "FnPlus", "FnRecompose"} THEN FnV(L)
            ELSE IF L.a \in {"PrettyDouble", "PrettyNumber"} THEN SiV(L)
            ELSE V("unknown-action", "", <<>>)
   IN [id |-> L.id, ok |-> (v.field = ""), field |-> v.field, cls |-> v.cls,
